@@ -41,6 +41,10 @@ def check(c):
     try:
         ppd(X, Y, cell_length=np.ones(d + 1)); expect(False, 'reject[C15]:mismatched-cell-dimension-is-rejected')
     except ValueError: pass
+    for L in sorted(set([1, max(1, d - 1)]) - {d}):        # shorter cells, incl. a one-entry cell (which numpy would broadcast silently)
+        try:
+            ppd(X, Y, cell_length=np.ones(L)); expect(False, f'reject[C15]:mismatched-cell-dimension-is-rejected[shorter cell]')
+        except ValueError: pass
     # Mahalanobis
     Pn = int(rng.integers(1, 4))
     Ls = [np.eye(d)] + [np.tril(rng.normal(size=(d, d))) + 2 * np.eye(d) for _ in range(Pn - 1)]
@@ -61,4 +65,8 @@ def check(c):
     try:
         pmd(X, Y, P, cell_length=np.ones(d + 1)); expect(False, 'reject[C15]:mismatched-cell-dimension-is-rejected[mahalanobis]')
     except ValueError: pass
+    for L in sorted(set([1, max(1, d - 1)]) - {d}):
+        try:
+            pmd(X, Y, P, cell_length=np.ones(L)); expect(False, f'reject[C15]:mismatched-cell-dimension-is-rejected[mahalanobis, shorter cell]')
+        except ValueError: pass
     return []
